@@ -3,7 +3,7 @@ From Coq Require Import NArith List Bool.
 Import ListNotations.
 From DV Require Import Base.Outcome C18.Gen C18.Model C18.Proofs C18.ProofsEnc C18.ProofsSpec
   C18.ProofsDec64 C18.ProofsDec32 C18.ProofsApi C18.ProofsApi2 C18.ProofsConv C18.ProofsPostFix
-  C18.ProofsCap C18.ProofsGrammar C18.ProofsUsers.
+  C18.ProofsCap C18.ProofsGrammar C18.ProofsUsers C18.ProofsScan2.
 Local Open Scope N_scope.
 
 Theorem C18_encode_tables_are_rfc4648 :
@@ -346,6 +346,52 @@ Print Assumptions C18_decode_cap_spec.
    decode is push-with-? then finalize, ShortBuf is handled as modelled *)
 Theorem C18_t1_shape_anchors :
   encode_wrappers_are_display = true /\ shortbuf_paths_as_modelled = true /\
-  decode_is_push_try_finalize = true.
-Proof. exact (conj eq_refl (conj eq_refl eq_refl)). Qed.
+  decode_is_push_try_finalize = true /\ serde_modules_use_codecs = true.
+Proof. exact (conj eq_refl (conj eq_refl (conj eq_refl eq_refl))). Qed.
 Print Assumptions C18_t1_shape_anchors.
+
+(* ---- the other token-reading methods of IterScanner; display into a failing writer ---- *)
+
+Theorem C18_scan_methods_refuse_bad_escapes : forall token, snd (symbols token) = false ->
+  (forall r, scan_octets token <> Ok r) /\ (forall r, scan_charstr token <> Ok r) /\
+  (forall r, scan_string token <> Ok r) /\ (forall r, scan_ascii_str token <> Ok r) /\
+  (forall r, scan_symbols token <> Ok r) /\
+  (forall f r, scan_name_with iter_scanner_checks_escapes f token <> Ok r).
+Proof. exact scan_methods_refuse_bad_escapes. Qed.
+Print Assumptions C18_scan_methods_refuse_bad_escapes.
+
+Theorem C18_scan_entry_methods_refuse_bad_escapes : forall tokens,
+  Exists (fun token => snd (symbols token) = false) tokens ->
+  (forall r, scan_charstr_entry tokens <> Ok r) /\ (forall r, scan_entry_symbols tokens <> Ok r).
+Proof. exact scan_entry_methods_refuse_bad_escapes. Qed.
+Print Assumptions C18_scan_entry_methods_refuse_bad_escapes.
+
+Theorem C18_scan_symbols_ok_iff : forall token syms,
+  scan_symbols token = Ok syms <-> wf_esc token /\ syms = fst (symbols token).
+Proof. exact scan_symbols_ok_iff. Qed.
+Print Assumptions C18_scan_symbols_ok_iff.
+
+Theorem C18_scan_octets_plain : forall s, ~ In 92 s -> Forall printable s ->
+  scan_octets s = Ok s /\ (N.of_nat (length s) <= 255 -> scan_charstr s = Ok s).
+Proof. exact (scan_octets_plain iter_scanner_checks_escapes). Qed.
+Print Assumptions C18_scan_octets_plain.
+
+Theorem C18_scan_string_plain : forall s, ~ In 92 s -> scan_string s = Ok (flat_map utf8 s).
+Proof. exact (scan_string_plain iter_scanner_checks_escapes). Qed.
+Print Assumptions C18_scan_string_plain.
+
+Theorem C18_b64_display_into_writer : forall bs room, octets bs ->
+  b64_display_w ([], room) bs =
+  Ok (if N.of_nat (length (spec_enc64 bs)) <=? room
+      then ((spec_enc64 bs, room - N.of_nat (length (spec_enc64 bs))), true)
+      else ((firstn (N.to_nat room) (spec_enc64 bs), 0), false)).
+Proof. exact b64_display_into_writer. Qed.
+Print Assumptions C18_b64_display_into_writer.
+
+Theorem C18_b16_display_into_writer : forall bs room, octets bs ->
+  b16_display_w ([], room) bs =
+  Ok (if 2 * N.of_nat (length bs) <=? room
+      then ((spec_enc16 bs, room - 2 * N.of_nat (length bs)), true)
+      else ((spec_enc16 (firstn (N.to_nat (room / 2)) bs), room - 2 * (room / 2)), false)).
+Proof. exact b16_display_into_writer. Qed.
+Print Assumptions C18_b16_display_into_writer.
